@@ -1,6 +1,7 @@
 import MakoModel.Basic.Unicode
 import MakoModel.Path.Model
 import MakoModel.Generated.Paths8
+import MakoModel.Generated.ModFile
 /-!
 # C08 – compilation / rendering paths (area `Paths8`)
 
@@ -455,6 +456,34 @@ def CodeRef.code (fs : FS) (r : CodeRef) : Option Str :=
   | none => match r.moduleFile with
     | some p => get fs p
     | none => none
+
+/-! ### which module EXECUTES after a module file is regenerated in place
+
+`compat.load_module` goes through the import system, which trusts cached bytecode whose recorded stamp (mtime in
+whole seconds, size) equals the stamp of the source file.  `_compile_module_file` writes the new module through the
+default writer or through `module_writer=` and then - on the path common to BOTH branches (regenerated flag
+`Generated.ModFile.dropsBytecode`, read from the function's AST by tools/regen_modfile.py) - removes that bytecode. -/
+
+/-- a module file on disk and its `__pycache__` entry -/
+structure ModFile where
+  src : Str                                  -- the module text in the file
+  stamp : Nat × Nat                          -- (mtime in whole seconds, size)
+  pyc : Option ((Nat × Nat) × Str)           -- cached bytecode: the stamp it was compiled for, and what it runs
+deriving DecidableEq, Repr
+
+/-- the module the import system executes for the file -/
+def ModFile.executes (m : ModFile) : Str :=
+  match m.pyc with
+  | some (st, code) => if st = m.stamp then code else m.src
+  | none => m.src
+
+/-- importing caches the bytecode of what was executed -/
+def ModFile.imported (m : ModFile) : ModFile := { m with pyc := some (m.stamp, m.executes) }
+
+/-- `_compile_module_file(…, outputpath, module_writer)`: either writer puts `src` in place (the file gets `stamp`);
+then the cached bytecode is removed iff `dropPyc` -/
+def ModFile.regenerate (dropPyc : Bool) (m : ModFile) (src : Str) (stamp : Nat × Nat) : ModFile :=
+  { src := src, stamp := stamp, pyc := if dropPyc then none else m.pyc }
 
 /-! ## (d) `_kwargs_for_callable`, `has_def`, `list_defs` -/
 
